@@ -284,6 +284,12 @@ def judge(case):
             rest = {k: v for k, v in kw.items() if k != "weights"}
             forms.append((" [weights passed positionally]", lambda: dc(case["id"], pop, kw["weights"], **rest)))
             forms.append((" [weights positionally, through functools.partial]", lambda: functools.partial(dc, case["id"], pop, kw["weights"])(**rest)))
+        if kind not in ("negative", "neg-cum"):
+            # the id-less (random) branch documents the same refusals (those of random.choices); a negative weight inside a
+            # positive total is the one thing random.choices does not look at
+            forms.append((" [without an id]", lambda: dc(None, pop, **kw)))
+            if "weights" in kw:
+                forms.append((" [without an id, weights passed positionally]", lambda: dc(None, pop, kw["weights"], **{k: v for k, v in kw.items() if k != "weights"})))
         for how, fn in forms:
             try:
                 r = fn()
